@@ -36,7 +36,13 @@ def load_known(prop):
     return known, fixed
 
 
+def _quiet_unraisable(unraisable):
+    # kvfile's __del__ flushes to a temporary database that the scratch cleanup has already removed: noise at exit
+    pass
+
+
 def _worker_init(scratch_root, memo):
+    sys.unraisablehook = _quiet_unraisable
     core.set_scratch_root(os.path.join(scratch_root, 'w%d' % os.getpid()))
     if memo:
         core.install_memo()
@@ -88,6 +94,7 @@ class Run:
                 'JSON-Schema meta-schema) and registry loads are memoised per profile name during '
                 'exploration; replays run without it')
         core.setup_logging_quiet()
+        sys.unraisablehook = _quiet_unraisable
         import warnings
         warnings.simplefilter('ignore')
         self.deadline = None
